@@ -72,3 +72,9 @@ pub broadcast axiom fn axiom_into_seq_vec<T>(v: Vec<T>)
 pub fn vx_io_error_new(kind: std::io::ErrorKind, text: String) -> (r: std::io::Error)
     ensures io_kind(&r) == kind
 { unimplemented!() }
+
+/// A-std: Option::map_or applies the closure to the payload or returns the default.
+pub assume_specification<T, U, F: FnOnce(T) -> U> [ Option::<T>::map_or ] (o: Option<T>, default: U, f: F) -> (r: U)
+    ensures
+        o is None ==> r == default,
+        o matches Some(x) ==> f.ensures((x,), r);
